@@ -107,7 +107,7 @@ def run(c) -> CaseResult:
 
         def reference(P, inp, mode):
             return dsl.evaluate(prog, dsl.named_tensors(qm), inp, mode)
-        n_q = sum({"linear": 1, "ulinear": 1, "sdpa": 1, "seq": 2}.get(s["op"], 0) for s in prog["stmts"])
+        n_q = sum({"linear": 1, "ulinear": 1, "sdpa": 1, "seq": 2, "mlp2": 2}.get(s["op"], 0) for s in prog["stmts"])
     else:
         h = c["h"]
         feats = ["root=" + c["root"]]
@@ -218,6 +218,70 @@ def run(c) -> CaseResult:
     return res
 
 
+# ------------------------------------------------------------------ the backend called directly on hand-built FX graphs
+
+
+@st.composite
+def fx_cases(draw, tier):
+    prog = draw(dsl.quant_programs())
+    for s_ in prog["stmts"]:
+        if s_["op"] == "ulinear":
+            # U.linear_readout never reaches a backend as a *node* through the public paths (unit_scale emits U.linear, TorchDynamo
+            # inlines user-level calls), and the backend's replacement table does not list it: not generated here
+            s_["readout"] = False
+    return dict(prog=prog, fwd=draw(fmt_st()), bwd=draw(fmt_st()), seed=draw(st.integers(0, 10**6)))
+
+
+def run_fx(c) -> CaseResult:
+    """U.linear / U.scaled_dot_product_attention survive as nodes here (TorchDynamo would inline them), with the constraint given
+    positionally, by keyword (incl. constraint=None) or omitted"""
+    res = CaseResult()
+    prog = c["prog"]
+    fwd, bwd = mk_fmt(c["fwd"]), mk_fmt(c["bwd"])
+    m = dsl.build_module(prog, c["seed"])
+    T = dsl.named_tensors(m)
+    inputs = dsl.make_inputs(prog, c["seed"])
+    gm, keys = dsl.to_fx(prog)
+    src = m._verif_source
+
+    def args(fl):
+        return [fl[k] if k in fl else T[k] for k in keys]
+    try:
+        backend = simulate_format(nn.Identity(), fwd, bwd).backends[-1]
+        import copy as _copy
+        qgm = backend(_copy.deepcopy(gm), [])
+        fl = prep(inputs)
+        with patch("torch.randint", pinned):
+            y = qgm(*args(fl))
+            y = y[0] if isinstance(y, tuple) else y
+            diff = [fl[k] for k in FLOAT_INPUTS if k in fl] + list(m.parameters())
+            g = torch.autograd.grad(y, diff, allow_unused=True)
+    except Exception as e:  # noqa: BLE001
+        res.fail(exc_bucket("C15.fx.raises", e)[:300], f"{type(e).__name__}: {str(e)[:300]}\n{src}")
+        return res
+    fr = prep(inputs)
+    mode = dsl.quantised(dsl.Plain, fwd, bwd)
+    with patch("torch.randint", pinned):
+        yr = dsl.evaluate(prog, T, fr, mode)
+        gr = torch.autograd.grad(yr, [fr[k] for k in FLOAT_INPUTS if k in fr] + list(m.parameters()), allow_unused=True)
+    if not bitequal(y.detach(), yr.detach()):
+        res.fail("C15.fx.value", f"backend on the hand-built FX graph differs from the hand-quantised reference (fwd={fwd}, bwd={bwd})\n{src}")
+    else:
+        names = [k for k in FLOAT_INPUTS if k in fl] + [n for n, _ in m.named_parameters()]
+        for name, a, b in zip(names, g, gr):
+            if not bitequal(a, b):
+                res.fail("C15.fx.grad", f"backend on the hand-built FX graph: gradient wrt {name} differs from the hand-quantised reference (fwd={fwd}, bwd={bwd})\n{src}")
+                break
+    n_q = sum({"linear": 1, "ulinear": 1, "sdpa": 1, "seq": 2, "mlp2": 2}.get(s_["op"], 0) for s_ in prog["stmts"])
+    nq = sum(1 for n in qgm.graph.nodes if n.op == "call_function" and "_quantised_" in str(n.target))
+    if nq != n_q:
+        res.fail("C15.fx.graph", f"{nq} quantised nodes for {n_q} linear/attention ops\n{src}")
+    res.nontrivial = n_q >= 1 and not (lossless(c["fwd"]) and lossless(c["bwd"]))
+    res.labels += ["fx-backend"] + (["U.linear-node"] if any(s_["op"] == "ulinear" for s_ in prog["stmts"]) else []) + \
+        (["U.sdpa-node"] if any(s_["op"] == "sdpa" and s_["unit"] for s_ in prog["stmts"]) else [])
+    return res
+
+
 # ------------------------------------------------------------------ many instances of ONE model class in one process
 
 
@@ -234,7 +298,7 @@ def run_repeat(c) -> CaseResult:
     prog = c["prog"]
     fwd, bwd = mk_fmt(c["fwd"]), mk_fmt(c["bwd"])
     cls = dsl.build_class(prog)
-    n_q = sum({"linear": 1, "ulinear": 1, "sdpa": 1, "seq": 2}.get(s["op"], 0) for s in prog["stmts"])
+    n_q = sum({"linear": 1, "ulinear": 1, "sdpa": 1, "seq": 2, "mlp2": 2}.get(s["op"], 0) for s in prog["stmts"])
     for k in range(c["n"]):
         m = dsl.build_module(prog, c["seed"] + k, cls=cls)
         inputs = dsl.make_inputs(prog, c["seed"] + k)
@@ -305,6 +369,7 @@ def run_prim(c) -> CaseResult:
 CHECK = Check(
     id="C15",
     parts=[Part("programs", run, strategy=cases, budget={"quick": 200, "thorough": 5000}),
+           Part("fx-backend", run_fx, strategy=fx_cases, budget={"quick": 300, "thorough": 8000}),
            Part("repeat", run_repeat, strategy=repeat_cases, budget={"quick": 8, "thorough": 80}),
            Part("primitives", run_prim, strategy=prim_cases, budget={"quick": 400, "thorough": 6000})],
     rule=("programs: Hypothesis-generated modules (depth 1-12; linear with bias positional / omitted / keyword / all-keyword / nn.Linear, "
@@ -313,7 +378,7 @@ CHECK = Check(
           "x format pairs from {E4M3,E5M2,E3M2,E5M10,E2M1,E8M23} with nearest or stochastic rounding (random source pinned by a substituted "
           "torch.randint that is a pure function of shape). Oracle: reference interpreter with straight-through quantisation written by hand "
           "using the caller's format objects - outputs and every gradient bit-equal; lossless E8M23 == untransformed module bit for bit; "
-          "simulate_fp8 == simulate_format(E4M3, E5M2); node count of the rewritten graph. repeat: 10-12 instances of ONE generated model class transformed and called in one process, each compared with the reference (state carried over between transforms). primitives: quantise_fwd / quantise_bwd value and "
+          "simulate_fp8 == simulate_format(E4M3, E5M2); node count of the rewritten graph. fx-backend: the same programs as hand-built FX graphs handed directly to the backend taken from simulate_format(...).backends[-1] (U.linear / U.scaled_dot_product_attention stay nodes there; constraint positional / keyword incl. None / omitted). repeat: 10-12 instances of ONE generated model class transformed and called in one process, each compared with the reference (state carried over between transforms). primitives: quantise_fwd / quantise_bwd value and "
           "gradient clauses. Non-trivial = >= 1 quantised op with a lossy format, or a keyword-argument spelling."),
     assumptions=["real TorchDynamo path (apply_transform) for every program; the backend is additionally run on the captured FX graph for the node-count clause",
                  "FPFormat.quantise itself is C13/C14's subject: here both sides call it with the same format objects"],
